@@ -5,6 +5,9 @@
 //!    and reports, per case, whether every observed outcome is admitted by the specification;
 //!  * `<area>-drive ...`: drives the implementation with seeded random histories and writes an
 //!    ndjson trace that a `*Trace.tla` specification validates (impl -> spec).
+mod cards;
+mod drive;
+mod gen;
 mod maps;
 mod modedit;
 mod replay;
@@ -30,6 +33,9 @@ fn main() {
         "modedit-replay" => util::run_cases(rest, modedit::replay_case),
         "modedit-drive" => modedit::drive(rest),
         "values-row" => util::run_cases(rest, values::table_row),
+        "cards-drive" => drive::drive(rest),
+        "cards-run" => util::run_cases(rest, drive::run_case),
+        "cards-show" => drive::show(rest),
         "table-replay" => util::run_cases(rest, tables::replay_case),
         "table-drive" => tables::drive(rest),
         other => {
